@@ -25,10 +25,12 @@ import (
 const modPath = "github.com/git-lfs/git-lfs/v3"
 
 type Unit struct {
-	Dir     string   `json:"dir"`
-	Files   []string `json:"files"`
-	Entries []string `json:"entries"`
-	Extra   []string `json:"extra_packages"`
+	Dir      string    `json:"dir"`
+	Files    []string  `json:"files"`
+	Entries  []string  `json:"entries"`
+	Extra    []string  `json:"extra_packages"`
+	Rewrites []Rewrite `json:"native_rewrites"`
+	NowHooks []string  `json:"now_hook_imports"` // import paths of other packages whose time.Now calls are rewritten
 }
 
 type Config struct {
@@ -388,11 +390,30 @@ func nativeRun(hdir string, u Unit, scripts map[string]*Script) (map[string]*Nat
 	pre := filepath.Join(tmp, "prelude.go")
 	os.WriteFile(pre, prelude("prelude.go.txt", pkg), 0644)
 	replace[filepath.Join(repoDir, u.Dir, "zz_verif_rt.go")] = pre
+	shimDone := map[string]bool{}
+	for k, rw := range u.Rewrites {
+		src, err := applyRewrite(rw)
+		if err != nil {
+			return nil, "ENGINE-REWRITE: " + err.Error()
+		}
+		replace[filepath.Join(repoDir, rw.Dir, rw.File)] = writeTemp(tmp, fmt.Sprintf("rw%d_%s", k, rw.File), src)
+		if rw.Dir != u.Dir && !shimDone[rw.Dir] {
+			shimDone[rw.Dir] = true
+			replace[filepath.Join(repoDir, rw.Dir, "zz_verif_shim.go")] = writeTemp(tmp, "shim_"+strings.ReplaceAll(rw.Dir, "/", "_")+".go", shimFor(pkgName(rw.Dir)))
+		}
+	}
 	var ents []string
 	for _, e := range u.Entries {
 		ents = append(ents, fmt.Sprintf("\t%q: %s,", e, e))
 	}
 	tst := strings.Replace(string(prelude("replay_test.go.txt", pkg)), "ENTRIES", strings.Join(ents, "\n"), 1)
+	var hookImports, hookSets []string
+	for k, imp := range u.NowHooks {
+		hookImports = append(hookImports, fmt.Sprintf("\tverif_hook%d %q", k, imp))
+		hookSets = append(hookSets, fmt.Sprintf("\tverif_hook%d.VerifNowHook = verifNow", k))
+	}
+	tst = strings.Replace(tst, "HOOKIMPORTS", strings.Join(hookImports, "\n"), 1)
+	tst = strings.Replace(tst, "HOOKSETS", strings.Join(hookSets, "\n"), 1)
 	tf := filepath.Join(tmp, "replay_test.go")
 	os.WriteFile(tf, []byte(tst), 0644)
 	replace[filepath.Join(repoDir, u.Dir, "zz_verif_replay_test.go")] = tf
